@@ -1127,7 +1127,26 @@ pub fn try_add_op(r: &mut Rng, cfg: &GenCfg, st: &mut GenState) {
     if cands.is_empty() {
         return;
     }
-    let (kind, args) = r.pick(&cands).clone();
+    // with toggles in play, now and then the previous statement is written again with one of its operands toggled in
+    // between (`y - w` ... `y - w` after `w.stop_tracking()`): the same operation on the same buffers, decided anew
+    let mut forced_pre: Option<(usize, bool)> = None;
+    let repeat = if cfg.toggles && r.chance(1, 6) {
+        match st.p.nodes.last() {
+            Some(Node::Op { kind, args, .. }) if !kind.is_alias() => Some((kind.clone(), args.clone())),
+            _ => None,
+        }
+    } else {
+        None
+    };
+    let (kind, args) = match repeat {
+        Some((k, a)) => {
+            let h = *r.pick(&a);
+            let flags = current_flags(&st.p);
+            forced_pre = Some((h, !flags[h]));
+            (k, a)
+        }
+        None => r.pick(&cands).clone(),
+    };
     // `sum(0)` hands back its operand (today: the same node through a clone). Whether a copy of an UNTRACKED operand
     // that is re-tracked later exposes the operand's own graph is an artefact of that aliasing, not a property: with
     // toggles in play, sum(0) is only applied to operands that are tracked at that moment.
@@ -1198,6 +1217,9 @@ pub fn try_add_op(r: &mut Rng, cfg: &GenCfg, st: &mut GenState) {
         // (see above) the operand of a sum(0) must be tracked at the moment of use, toggles of this statement included
         if kind.is_alias() && pre.iter().any(|(h, on)| *h == args[0] && !*on) {
             pre.clear();
+        }
+        if let Some(fp) = forced_pre {
+            pre = vec![fp];
         }
     }
     st.p.nodes.push(Node::Op { kind, args, post, pre });
